@@ -151,8 +151,8 @@ def showGenesis (g : FarmGenesis.Genesis) : String :=
   let ps := g.pools.map fun (id, p) =>
     s!"{id}|{p.creator}|{if p.desc = "" then "-" else p.desc}|{p.start}|{p.endH}|{p.last}|{if p.editable then 1 else 0}|{p.lpt}|{p.locked}|{if p.rules = [] then "-" else joinWith ";" (p.rules.map showRule)}"
   let fs := g.farmers.map fun ((a, id), f) => s!"{a}|{id}|{f.locked}|{showCoins ";" f.debt}"
-  s!"seq={g.seq} fee={g.params.fee} tax={g.params.tax.raw} maxcat={g.params.maxcat} escrow=0 fiorder=ok " ++
-  s!"pools={if ps = [] then "-" else joinWith "," ps} farmers={showList fs}"
+  s!"gseq={g.seq} gfee={g.params.fee} gtax={g.params.tax.raw} gmaxcat={g.params.maxcat} escrow=0 fiorder=ok " ++
+  s!"gpools={if ps = [] then "-" else joinWith "," ps} gfarmers={showList fs}"
 
 def validateWord (g : FarmGenesis.Genesis) : String :=
   match FarmGenesis.validateGenesis g with
@@ -177,12 +177,20 @@ def modelLine (s : State) (line : String) : State × String :=
   | _ =>
     match t with
     | ["farm", "export"] =>
-      let g := FarmGenesis.exportGenesis s
-      (s, s!"ok validate={validateWord g} {showGenesis g}")
+      -- an application exports committed state: the current block is finished first
+      let r := endBlocks 1 s
+      if r.2 then
+        (r.1, "panic validate=- gseq=- gfee=- gtax=- gmaxcat=- escrow=- fiorder=- gpools=- gfarmers=- " ++ "reward=- " ++ showState r.1)
+      else
+        let g := FarmGenesis.exportGenesis r.1
+        (r.1, s!"ok validate={validateWord g} {showGenesis g} reward=- {showState r.1}")
     | ["farm", "reimport"] =>
-      match FarmGenesis.importGenesis s (FarmGenesis.exportGenesis s) with
-      | .ok s' => (s', obsLine "ok" s' false)
-      | .error _ => (s, obsLine "panic" s false)
+      let r := endBlocks 1 s
+      if r.2 then (r.1, "panic same=- reward=- " ++ showState r.1)
+      else
+        match FarmGenesis.importGenesis r.1 (FarmGenesis.exportGenesis r.1) with
+        | .ok s' => (s', s!"ok same={if showState s' == showState r.1 then 1 else 0} reward=- {showState s'}")
+        | .error _ => (r.1, s!"panic same=1 reward=- {showState r.1}")
     | _ =>
     match parseOp t with
     | none => (s, "bad-op")
@@ -226,12 +234,11 @@ def runMonitor {σ : Type} (name : String) (init : State → σ)
         pre := { s with params := s0.params }
         st := init pre
       | _, _ => out.putStrLn s!"mon {name} FAIL clause=obs-parse line={i+1}"; fails := fails + 1
-    | ["farm", "export"] => pure ()
-    | ["farm", "reimport"] =>
-      match parseState pre o with
-      | some post => pre := post
-      | none => out.putStrLn s!"mon {name} FAIL clause=obs-parse line={i+1}"; fails := fails + 1
     | _ =>
+      -- `farm export` / `farm reimport` finish the current block first: for C05/C06/C13 they are a block end
+      let t := match t with
+        | ["farm", "export"] | ["farm", "reimport"] => ["farm", "end_block", "n=1"]
+        | _ => t
       match parseOp t, parseState pre o with
       | some op, some post =>
         steps := steps + 1
@@ -262,14 +269,18 @@ def runMonitorC12 (ops obs : Array String) : IO Unit := do
       | some s0, some s => pre := { s with params := s0.params }
       | _, _ => out.putStrLn s!"mon C12 FAIL clause=obs-parse line={i+1}"; fails := fails + 1
     | ["farm", "export"] =>
-      steps := steps + 1
-      for f in Spec.C12Farm.checkExport pre (arg o "validate") (arg o "escrow") (arg o "fiorder") do
-        out.putStrLn s!"mon C12 FAIL {f} line={i+1}"; fails := fails + 1
+      match parseState pre o with
+      | some post =>
+        steps := steps + 1
+        for f in Spec.C12Farm.checkExport (o.head?.getD "") (arg o "validate") (arg o "escrow") (arg o "fiorder") post do
+          out.putStrLn s!"mon C12 FAIL {f} line={i+1}"; fails := fails + 1
+        pre := post
+      | none => out.putStrLn s!"mon C12 FAIL clause=obs-parse line={i+1}"; fails := fails + 1
     | ["farm", "reimport"] =>
       match parseState pre o with
       | some post =>
         steps := steps + 1
-        for f in Spec.C12Farm.checkReimport pre (o.head?.getD "") post do
+        for f in Spec.C12Farm.checkReimport pre (o.head?.getD "") (arg o "same") post do
           out.putStrLn s!"mon C12 FAIL {f} line={i+1}"; fails := fails + 1
         pre := post
       | none => out.putStrLn s!"mon C12 FAIL clause=obs-parse line={i+1}"; fails := fails + 1
